@@ -1,57 +1,63 @@
 /* C12 protocol lemma: which entries can the serial fiber of round k pop?
  *
- * Abstract state around one round k and its successor (count participants, as the statement says):
- *   ann_k  arrivals of round k that took a number and have not enqueued yet       enq_k  enqueued, unpopped round-k entries
- *   ser    the serial fiber of round k has arrived and is in its wake loop         pop_k  round-k entries it has popped
- *   rel    round-k waiters already scheduled (they may run and re-enter)           ann_n / enq_n   the same for round k+1
- *   pop_n  round-(k+1) entries popped by the round-k serial fiber (must stay 0: such a fiber passes round k+1 early and a
- *          round-k waiter is left behind)
- * FULL (the code as it is):   a released waiter may re-enter at once.      TWIN: no re-entry while ser (restricted twin).
+ * count participants (as the statement says), each in one round at a time.  Rounds alternate between two wait lists, so the list of
+ * round k holds entries of rounds k, k+2, ... only.  Abstract state around round k:
+ *   arr_k   arrivals of round k            ann_k  took a number, not enqueued yet      enq_k  enqueued on list(k), unpopped
+ *   ser     the serial fiber of round k has arrived          done   ... and has finished its wake loop
+ *   pop_k   round-k entries it has popped (= released)        pop_x  entries of another round it has popped (must stay 0)
+ *   arr_n   arrivals of round k+1 (released round-k waiters, and the round-k serial fiber once done)
+ *   arr_nn  arrivals of round k+2 (possible only when round k+1 is complete)      enq_nn  their entries on list(k) = list(k+2)
+ * CLAIM  pop_x == 0: while the round-k serial fiber pops, list(k) holds round-k entries only.
+ * SINGLE (the pinned code before the fix, kept as a regression of finding D4): one list for all rounds — then round-k+1 entries sit on the
+ * list the round-k serial fiber pops from, and the claim is NOT inductive (lemma expected to FAIL is not run; see findings/D4_barrier_reuse.c).
  */
 #include "verif_rt.h"
-typedef struct { unsigned count, arr_k, ann_k, enq_k, ser, pop_k, rel, ann_n, enq_n, pop_n; } st_t;
-static int inv(st_t s, int twin) {
-  return s.count >= 1 && s.count <= 0x7FFFFFFF && s.ser <= 1 && s.arr_k <= s.count && s.ann_k <= s.count && s.enq_k <= s.count &&
-         s.pop_k <= s.count && s.rel <= s.count && s.ann_n <= s.count && s.enq_n <= s.count && s.pop_n <= s.count &&
-         (!twin || !s.ser || s.ann_n == 0) && (s.ser || (s.pop_k == 0 && s.pop_n == 0)) && (s.ser == (s.arr_k == s.count)) &&
-         /* the count-1 non-serial arrivals of round k are announced, enqueued, or popped */
-         (uint64_t)s.ann_k + s.enq_k + s.pop_k + s.ser == (uint64_t)s.arr_k && (uint64_t)s.rel == (uint64_t)s.pop_k + s.pop_n &&
-         (uint64_t)s.pop_k + s.pop_n + 1 <= (uint64_t)s.count &&
-         /* round k+1 can only be entered by fibers released from round k */
-         (uint64_t)s.ann_n + s.enq_n + s.pop_n <= (uint64_t)s.rel &&
-         /* THE CLAIM the park contract needs: the serial fiber of round k pops only round-k entries */
-         s.pop_n == 0 && (!s.ser || s.enq_n == 0);
+typedef struct { unsigned count, arr_k, ann_k, enq_k, ser, done, pop_k, pop_x, arr_n, enq_n, arr_nn, enq_nn; } st_t;
+static int inv(st_t s) {
+  return s.count >= 1 && s.count <= 0x7FFFFFFF && s.ser <= 1 && s.done <= 1 && s.done <= s.ser &&
+         s.arr_k <= s.count && s.ann_k <= s.count && s.enq_k <= s.count && s.pop_k <= s.count && s.arr_n <= s.count && s.enq_n <= s.count && s.arr_nn <= s.count && s.enq_nn <= s.count &&
+         (s.ser == (s.arr_k == s.count)) && (s.ser || s.pop_k == 0) &&
+         /* the non-serial arrivals of round k are announced, enqueued or popped */
+         (uint64_t)s.ann_k + s.enq_k + s.pop_k + s.ser == (uint64_t)s.arr_k &&
+         (uint64_t)s.pop_k + 1 <= (uint64_t)s.count && (!s.done || (uint64_t)s.pop_k + 1 == (uint64_t)s.count) &&
+         /* round k+1 is entered only by fibers released from round k and by the round-k serial fiber after its wake loop */
+         (uint64_t)s.arr_n <= (uint64_t)s.pop_k + s.done && s.enq_n <= s.arr_n &&
+         /* round k+2 is entered only when round k+1 is complete */
+         (s.arr_nn == 0 || s.arr_n == s.count) && s.enq_nn <= s.arr_nn &&
+         /* THE CLAIM the park contract needs */
+         s.pop_x == 0 && (!(s.ser && !s.done) || s.enq_nn == 0);
 }
-static int act(int w, st_t* s, int twin) {
+static int act(int w, st_t* s) {
   switch (w) {
-    case 0: if (s->arr_k >= s->count - 1 || s->ser) return 0; s->arr_k++; s->ann_k++; return 1;                 /* non-serial arrival of round k */
-    case 1: if (s->arr_k != s->count - 1 || s->ser) return 0; s->arr_k++; s->ser = 1; return 1;                  /* serial arrival */
-    case 2: if (!s->ann_k) return 0; s->ann_k--; s->enq_k++; return 1;                                          /* deferred enqueue */
-    case 3: if (!s->ser || !s->enq_k || s->pop_k + s->pop_n >= s->count - 1) return 0; s->enq_k--; s->pop_k++; s->rel++; return 1; /* pop + schedule */
-    case 4: if (!s->ser || !s->enq_n || s->pop_k + s->pop_n >= s->count - 1) return 0; s->enq_n--; s->pop_n++; s->rel++; return 1; /* pops a next-round entry */
-    case 5: if (s->ann_n + s->enq_n + s->pop_n >= s->rel) return 0; if (twin && s->ser) return 0; s->ann_n++; return 1; /* a released fiber re-enters */
-    case 6: if (!s->ann_n) return 0; s->ann_n--; s->enq_n++; return 1;
+    case 0: if (s->arr_k >= s->count - 1 || s->ser) return 0; s->arr_k++; s->ann_k++; return 1;                              /* non-serial arrival of round k */
+    case 1: if (s->arr_k != s->count - 1 || s->ser) return 0; s->arr_k++; s->ser = 1; if (s->count == 1) s->done = 1; return 1; /* serial arrival (count 1: nothing to wake) */
+    case 2: if (!s->ann_k) return 0; s->ann_k--; s->enq_k++; return 1;                                                       /* deferred enqueue on list(k) */
+    case 3: if (!s->ser || s->done || !s->enq_k) return 0; s->enq_k--; s->pop_k++; if (s->pop_k + 1 == s->count) s->done = 1; return 1;  /* pop a round-k entry + schedule */
+    case 4: if (!s->ser || s->done || !s->enq_nn) return 0; s->enq_nn--; s->pop_x++; return 1;                               /* pop whatever else is on list(k) */
+    case 5: if ((uint64_t)s->arr_n >= (uint64_t)s->pop_k + s->done) return 0; s->arr_n++; return 1;                          /* a released fiber (or the finished serial fiber) enters round k+1 */
+    case 6: if (s->enq_n >= s->arr_n) return 0; s->enq_n++; return 1;                                                        /* ... and enqueues on list(k+1) */
+    case 7: if (s->arr_n != s->count || s->arr_nn >= s->count) return 0; s->arr_nn++; return 1;                              /* round k+1 complete: round k+2 arrivals */
+    case 8: if (s->enq_nn >= s->arr_nn) return 0; s->enq_nn++; return 1;                                                     /* ... enqueue on list(k+2) = list(k) */
   }
   return 0;
 }
-#define ANYST st_t s; s.count = verif_u32(); s.arr_k = verif_u32(); s.ann_k = verif_u32(); s.enq_k = verif_u32(); s.ser = verif_u32(); \
-  s.pop_k = verif_u32(); s.rel = verif_u32(); s.ann_n = verif_u32(); s.enq_n = verif_u32(); s.pop_n = verif_u32();
-void lemma_full_serial_pops_only_its_round(void) {
-  ANYST VASSUME(inv(s, 0));
-  int w = (int)verif_pick(7); VASSUME(act(w, &s, 0));
-  VASSERT(inv(s, 0), "L: D4 (full) the serial fiber of round k pops only round-k entries, also when released fibers re-enter at once");
-  VCANARY("full premises satisfiable");
+#define ANYST st_t s; s.count = verif_u32(); s.arr_k = verif_u32(); s.ann_k = verif_u32(); s.enq_k = verif_u32(); s.ser = verif_u32(); s.done = verif_u32(); \
+  s.pop_k = verif_u32(); s.pop_x = verif_u32(); s.arr_n = verif_u32(); s.enq_n = verif_u32(); s.arr_nn = verif_u32(); s.enq_nn = verif_u32();
+void lemma_init_state_satisfies_inv(void) {
+  st_t s = {0}; s.count = verif_u32(); VASSUME(s.count >= 1 && s.count <= 0x7FFFFFFF);
+  VASSERT(inv(s), "L: L0 the state at the start of a round (list empty, nobody arrived) satisfies the invariant");
+  VCANARY("init premises satisfiable");
 }
-void lemma_twin_serial_pops_only_its_round(void) {
-  ANYST VASSUME(inv(s, 1));
-  int w = (int)verif_pick(7); VASSUME(act(w, &s, 1));
-  VASSERT(inv(s, 1), "L: (twin) the serial fiber of round k pops only round-k entries when nobody re-enters during its wake loop");
-  VCANARY("twin premises satisfiable");
+void lemma_serial_pops_only_its_round(void) {
+  ANYST VASSUME(inv(s));
+  int w = (int)verif_pick(9); VASSUME(act(w, &s));
+  VASSERT(inv(s), "L: L1 the serial fiber of round k pops only round-k entries, also when released fibers re-enter at once (alternating wait lists)");
+  VCANARY("lemma premises satisfiable");
 }
 void lemma_round_completes(void) {
-  /* when the serial fiber has popped count-1 round-k entries, every round-k waiter has been released: all of them return */
-  ANYST VASSUME(inv(s, 1) && s.ser && s.pop_k == s.count - 1);
-  VASSERT(s.ann_k == 0 && s.enq_k == 0 && s.rel == s.count - 1, "L: L4 when the wake loop ends every round-k waiter has been released exactly once");
+  /* when the serial fiber has finished its wake loop, every round-k waiter has been released exactly once */
+  ANYST VASSUME(inv(s) && s.done);
+  VASSERT(s.ann_k == 0 && s.enq_k == 0 && (uint64_t)s.pop_k + 1 == (uint64_t)s.count, "L: L4 when the wake loop ends every round-k waiter has been released exactly once");
   VCANARY("complete premises satisfiable");
 }
 /* arithmetic of arrival numbers, bounded stand-in for count (B: count <= 15, a < 2^12; the concrete-count refinement groups cover all 2^64 arrival numbers) */
@@ -61,6 +67,7 @@ void lemma_rounds_bounded(void) {
   unsigned R = verif_u32() & 0x1FFF;
   VASSUME(R % count == 0 && R >= a && R - a < count);
   VASSERT((a % count == 0) == (a == R), "B: the fiber told SERIAL is the one whose arrival number completes the round (count <= 15, a < 2^12)");
+  VASSERT((a - 1) / count == (R - 1) / count, "B: every arrival of a round computes the same round index as its serial fiber, hence the same wait list (count <= 15, a < 2^12)");
   unsigned b = verif_u32() & 0xFFF;
   VASSUME(b >= 1 && b != a && R >= b && R - b < count);
   VASSERT(!(a % count == 0 && b % count == 0), "B: exactly one arrival number per round is a multiple of count (count <= 15, a < 2^12)");
